@@ -47,6 +47,9 @@ ENCODED = [
     "tensorly.tenalg.proximal.hard_thresholding",
     "tensorly.regression.cp_regression.CPRegressor.fit",
     "tensorly.regression.cp_plsr.CP_PLSR.fit",
+    "tensorly.tenalg.svd.svd_interface",
+    "tensorly.decomposition._tt.tensor_train",
+    "tensorly.decomposition._tr_svd.tensor_ring",
 ]
 BOUNDS = {"quick": "sizes 2, rank <= 2, one or two sweeps, one configuration per (entry point, argument kind)", "thorough": "same"}
 OUTSIDE = ["entry points not executable under the symbolic backend (TT-cross, data loaders)", "more than two sweeps", "backends other than NumPy"]
@@ -103,6 +106,10 @@ def configs(tier):
     for kind in ("non_negative", "l1_reg", "simplex", "monotonicity", "hard_sparsity", "unimodality", "normalize", "soft_sparsity"):
         add("prox", kind=kind, mode="fork" if kind in ("hard_sparsity", "unimodality") else "merge")
     add("tenalg", opt="all")
+    add("rank_lists", opt="tt_tr_tucker")
+    add("svd_interface", opt="mask", mode="fork")
+    add("parafac", init="svd_real", opt="mask", mode="fork")
+    add("active_set", opt="warm_backtrack")
     add("cp_regressor", opt="fit")
     add("cp_plsr", opt="fit")
     return out
@@ -200,7 +207,8 @@ def harness(E, cfg):
         import tensorly.decomposition._parafac2 as _p2
 
         for mod in (_cp, _tk, _cc):
-            backend.patch(mod, "svd_interface", stub_svd_interface)
+            if cfg.get("init") != "svd_real":
+                backend.patch(mod, "svd_interface", stub_svd_interface)
         backend.patch(_p2, "svd_interface", stub_orthonormal_svd)
         # inner solvers are hard-wired to 100 sweeps: run the REAL in-place code for one sweep
         real_hals = _nn.hals_nnls
@@ -229,8 +237,13 @@ def harness(E, cfg):
             nn = ep != "parafac"
             X = snap.arr("tensor", np.array(E.real("X", shp, pos=nn)))
             kw = dict(n_iter_max=1 if ep == "nn_parafac_hals" else 2, tol=0)
-            if cfg["init"] == "svd":
+            if cfg["init"] in ("svd", "svd_real"):
                 kw["init"] = "svd"
+                if cfg["init"] == "svd_real":
+                    # the real svd_interface runs (mask imputation sweeps on the mode-0 unfolding, which is a VIEW of the caller's tensor)
+                    kw["n_iter_max"] = 0
+                    kw["svd_mask_repeats"] = 1
+                    R = 1
             else:
                 kw["init"] = _cp_init(E, snap, shp, R, nn=nn, kind=cfg["init"], view=(opt == "view"))
             if opt == "mask":
@@ -336,9 +349,30 @@ def harness(E, cfg):
                 fista(UtM, UtU, x0, n_iter_max=2, lr=E.real("lr", pos=True), non_negative=True)
             else:
                 if E.symbolic:
-                    backend.configure(solve="exact")
-                x0 = snap.arr("x0", np.array(E.real("x0", (2,), nn=True)))
-                active_set_nnls(UtM, UtU, x0, n_iter_max=2)
+                    backend.configure(solve="exact" if opt != "warm_backtrack" else "havoc")
+                x0 = snap.arr("x0", np.array(E.real("x0", (2,), pos=(opt == "warm_backtrack"), nn=True)))
+                active_set_nnls(UtM, UtU, x0, n_iter_max=1 if opt == "warm_backtrack" else 2)
+        elif ep == "rank_lists":
+            from tensorly.decomposition import tensor_train, tensor_ring, tucker
+
+            X = snap.arr("tensor", np.array(E.real("X", (2, 2, 2))))
+            r1 = snap.cont("tt_rank_list", [1, 3, 3, 1])
+            tensor_train(X, r1)
+            tensor_train(X, r1)
+            r2 = snap.cont("tr_rank_list", [2, 3, 1, 2])
+            try:
+                tensor_ring(X, r2, mode=1)
+            except ValueError:
+                pass
+            r3 = snap.cont("tucker_rank_list", [2, 1, 2])
+            tucker(X, rank=r3, n_iter_max=1, tol=0)
+        elif ep == "svd_interface":
+            from tensorly.tenalg import svd_interface
+
+            Mx = snap.arr("matrix", np.array(E.real("M", (2, 2))))
+            m = np.ones((2, 2), dtype=object if E.symbolic else float)
+            m[0, 1] = 0
+            svd_interface(Mx, n_eigenvecs=1, mask=snap.arr("mask", m), n_iter_mask_imputation=2)
         elif ep == "process_weights":
             from tensorly.solvers.penalizations import process_regularization_weights
 
